@@ -235,6 +235,19 @@ def r2_classification(ctx, rep, P_, N_, R='C08.R2'):
         return
     lp = loops[0]
     pv = lp.target.id
+    # the negation marker is ONE leading character: '!!x' is the negation of the regex '!x'.  A
+    # character-set strip of the pattern (lstrip / strip / replace of '!') removes every marker-looking
+    # character, so the regex compiled for '!!x' is 'x'
+    for c in ast.walk(lp):
+        if isinstance(c, ast.Call) and isinstance(c.func, ast.Attribute) and \
+                c.func.attr in ('lstrip', 'strip', 'replace', 'translate') and is_name(c.func.value, pv) and \
+                c.args and isinstance(c.args[0], ast.Constant) and isinstance(c.args[0].value, str) and \
+                '!' in c.args[0].value:
+            rep.bad(R, 'pattern loop: %s' % norm(c), 'the pattern text is derived with %s, which removes EVERY '
+                    'leading "!" (a character set, not a prefix): for a pattern with two or more of them the regex '
+                    'that is compiled is not the pattern without its one negation marker' % norm(c),
+                    key='classify:strip-all-markers', func=fi.qualname, where=ctx.where(fi, c))
+            return
     paths = []
     _sym_paths(list(lp.body), {'conds': [], 'stores': [], pv: ('pattern',)}, paths)
     n = 0
